@@ -95,7 +95,7 @@ def validate_traces(ctx, recs, shards):
 def selftest(ctx, recs):
     """Guards against a vacuous Judge / Trace spec: up to three recorded observations are damaged (request path,
     type of a typed error, limiter consulted after the request); the Judge must reject each damaged line with the
-    matching clause and the Trace spec must not accept the damaged traces."""
+    matching clause and the Trace spec must stop at the first damaged trace."""
     pool = copy.deepcopy(recs[:400])
     want = {}
     typed = ("*osmapi.GoneError", "*osmapi.ForbiddenError", "*osmapi.RequestURITooLongError")
@@ -124,9 +124,9 @@ def selftest(ctx, recs):
     for j, i in enumerate(sorted(want)):
         if clause[want[i]] not in (got.get(j) or []):
             raise vlib.Infra("C20 self-test: damaged record (%s) not rejected by the Judge: %s" % (want[i], got))
-    acc, div, _ = validate_chunk(ctx, sel, "selftest", max_div=len(sel))
-    if len(div) != len(sel):
-        raise vlib.Infra("C20 self-test: Trace spec accepted a damaged trace (%d of %d rejected)" % (len(div), len(sel)))
+    acc, div, _ = validate_chunk(ctx, sel, "selftest", max_div=1)
+    if not div or div[0][0] is not sel[0]:
+        raise vlib.Infra("C20 self-test: Trace spec did not stop at the first damaged trace")
     return len(sel)
 
 
@@ -173,7 +173,7 @@ def run(ctx):
     ctx.samples = [brief(recs[i]) for i in (0, len(recs) // 3, 2 * len(recs) // 3, len(recs) - 1)]
 
     # 4.+5. verdict (Judge) and conformance (Trace), side by side
-    jshards = 3 if quick else 8
+    jshards = 2 if quick else 8
     tshards = 2 if quick else 6
     judge = lambda rs: vlib.tlc_judge(ctx, JUDGE, JCFG, rs, shards=(jshards if len(rs) > 500 else 1))
     with cf.ThreadPoolExecutor(max_workers=2) as pool:
